@@ -122,6 +122,15 @@ def run(ck):
                             isz = True
             if isz:
                 zero_stores.append(i)
+    # .. the same written with a fresh binding (`let timeout = if .. { timeout } else { Some(ZERO) }`): a Some(ZERO)
+    # literal that reaches the wait's timeout argument
+    if polls:
+        for r, p_ in b.resolve(polls[0].args[1]):
+            if r[0] == "agg" and r[1] not in zero_stores and not b.is_cleanup(r[1]):
+                rv2 = b.agg_at(r[1], r[2])
+                k = rv2["fields"][0].get("k", {}) if rv2.get("fields") else {}
+                if rv2.get("variant") == "Some" and ("ZERO" in k.get("s", "") or k.get("const_path", "").endswith("ZERO")):
+                    zero_stores.append(r[1])
     ck.floor("2", "stores of Some(Duration::ZERO) into the timeout", len(zero_stores), 1)
     if bs:
         some, none = T.option_split(b, bs[0].bb)
